@@ -24,14 +24,17 @@ Interop(wiring, emits, accepts) == \A w \in wiring : emits[w[1]] \subseteq accep
 Broken(wiring, emits, accepts) == {<<w, f>> \in wiring \X Forms : f \in emits[w[1]] /\ f \notin accepts[w[2]]}
 
 (* ---- the wiring of the code (who hands strings to whom), shared with the acceptor ---- *)
-Producers == {"Display", "SockToString", "FourWords", "ToMultiaddr", "BootEncode"}
+Producers == {"Display", "SockToString", "FourWords", "ToMultiaddr", "BootEncode", "Reply"}
 Consumers == {"FromStr", "FromFourWords", "AddNode", "MultiaddrFrom", "Dial", "BootDecode"}
 Wiring == {<<"Display", "FromStr">>, <<"Display", "AddNode">>, <<"Display", "Dial">>,
            <<"SockToString", "Dial">>, <<"SockToString", "MultiaddrFrom">>, <<"ToMultiaddr", "FromStr">>,
-           <<"FourWords", "FromFourWords">>, <<"FourWords", "FromStr">>, <<"BootEncode", "BootDecode">>}
-(* consumers that are private functions of DhtNetworkManager: what they accept is taken from reading
-   (both strip a " (" suffix and then parse a SocketAddr) *)
-AcceptsByReading == [c \in {"MultiaddrFrom", "Dial"} |-> {"sock", "sockWords"}]
+           <<"FourWords", "FromFourWords">>, <<"FourWords", "FromStr">>, <<"BootEncode", "BootDecode">>,
+           <<"Reply", "Dial">>}
+(* multiaddr_from_address is a private function of DhtNetworkManager fed only by the transport's own peer info: what it
+   accepts is taken from reading (it strips a " (" suffix and then parses a SocketAddr).  "Reply" is the address string a
+   real node puts into a find-node reply; "Dial" (dial_candidate) is observed on the wire: a harness endpoint names a peer
+   under each form and the in-memory hub records what the transport was asked to dial. *)
+AcceptsByReading == [c \in {"MultiaddrFrom"} |-> {"sock", "sockWords"}]
 
 (* ---- description of an address [o1,o2,o3,o4,port] / [g1..g8,port] for violation conditions ---- *)
 V6Class(g) ==
